@@ -18,3 +18,9 @@ func (ctrler *EVMCtrler) VerifCallVM(from, to types.Address, data []byte, height
 func (ctrler *EVMCtrler) VerifLastRoot() ([]byte, int64) {
 	return append([]byte(nil), ctrler.lastRootHash...), ctrler.lastBlockHeight
 }
+
+// VerifState returns the live state wrapper of the block in execution (nil between blocks before
+// the first BeginBlock); read-only use by the external verification harness.
+func (ctrler *EVMCtrler) VerifState() *StateDBWrapper {
+	return ctrler.stateDBWrapper
+}
